@@ -761,9 +761,14 @@ class UnionUnmarshaller(AbstractUnmarshaller[UnionT], tp.Generic[UnionT]):
         """
         for routine in self.ordered_routines:
             # A member may reject the input with any error, try the next one.
-            with contextlib.suppress(Exception):
+            #   Running out of stack or memory is not a rejection.
+            try:
                 unmarshalled = routine(val)
                 return unmarshalled
+            except (RecursionError, MemoryError):
+                raise
+            except Exception:  # noqa: S112
+                continue
 
         raise ValueError(f"{val!r} is not one of types {self.stack!r}")
 
